@@ -5,8 +5,11 @@ import (
 	"math/rand"
 	"os"
 	"sync"
+	"sync/atomic"
+	"time"
 
 	"github.com/pingcap/kvproto/pkg/metapb"
+	"github.com/tikv/pd/server/core"
 	"verif/harness/lib/hist"
 	"verif/harness/lib/kvx"
 	"verif/harness/lib/sched"
@@ -247,6 +250,96 @@ func addressCases(thorough bool) []raceCase {
 	return out
 }
 
+// store-writer-race: the store writers that do NOT take the cluster lock (AttachAvailableFunc from
+// the operator controller / RemoveStoreLimit, PauseLeaderTransfer / ResumeLeaderTransfer from the
+// evict-/grant-leader schedulers; they read-modify-write a StoreInfo under the BasicCluster lock
+// only) against each lifecycle operation on the same store. These writers have no storage
+// operation to park them at, so the window is widened the only way the program offers: the store
+// carries a large generated label set (copying it takes long), the lifecycle operation is parked
+// at its storage write, the writer starts, and the scheduler's settle rule releases the write while
+// the writer is still copying. Judged like heartbeat-race (the writer never changes state, flags,
+// address, labels, weights), then once more after a further store heartbeat.
+const writerTag = "store-writer-race"
+
+func writerCases(thorough bool, nLabels int) []raceCase {
+	big := func() *step {
+		st := putX()
+		st.BigLabels = nLabels
+		return st
+	}
+	up := func() []*step { return []*step{big()} }
+	off := func() []*step { return []*step{big(), {Cmd: "remove", ID: rX}} }
+	tomb := func() []*step { return []*step{big(), {Cmd: "remove", ID: rX}, {Cmd: "checkstores"}} }
+	type life struct {
+		name  string
+		setup func() []*step
+		op    func() *step
+	}
+	lifes := []life{
+		{"remove-destroyed", up, func() *step { return &step{Cmd: "remove", ID: rX, Destroyed: true} }},
+		{"remove", up, func() *step { return &step{Cmd: "remove", ID: rX} }},
+		{"up", off, func() *step { return &step{Cmd: "up", ID: rX} }},
+		{"bury", off, func() *step { return &step{Cmd: "bury", ID: rX} }},
+		{"put-same-id", up, func() *step {
+			return &step{Cmd: "put", Via: "cluster", ID: rX, Addr: "tikv-b:20160", Version: "5.0.1", BigLabels: nLabels}
+		}},
+		{"labels", up, func() *step { return &step{Cmd: "labels", ID: rX, Labels: lbl("rack", "r1"), Force: true} }},
+		{"weight", up, func() *step { return &step{Cmd: "weight", ID: rX, LW: 2, RW: 0.5} }},
+		{"cleanup", tomb, func() *step { return &step{Cmd: "rmtomb"} }},
+	}
+	writers := []string{"attach", "pause", "resume", "rmlimit"}
+	var out []raceCase
+	for li, l := range lifes {
+		for wi, w := range writers {
+			if !thorough && (li > 0 && wi > 0 || wi == 0 && (l.name == "remove" || l.name == "labels" || l.name == "weight") || w == "rmlimit") {
+				continue // quick: attach with five lifecycle operations, pause / resume with the first one
+			}
+			l, w := l, w
+			out = append(out, raceCase{name: w + "|" + l.name, names: []string{"store-writer", "lifecycle"},
+				setup: func() []*step {
+					st := l.setup()
+					if w == "resume" {
+						st = append(st, &step{Cmd: "pause", ID: rX})
+					}
+					return st
+				},
+				w: func() [][]*step { return [][]*step{one(&step{Cmd: w, ID: rX}), one(l.op())} }})
+		}
+	}
+	return out
+}
+
+// calibrateLabels picks the size of the generated label set so that copying the store takes about
+// a hundred milliseconds on this machine (exploration only: it widens a window, no verdict depends on it).
+func calibrateLabels() int {
+	const probe = 20000
+	m := &metapb.Store{Id: 1}
+	for i := 0; i < probe; i++ {
+		m.Labels = append(m.Labels, &metapb.StoreLabel{Key: fmt.Sprintf("k%06d", i), Value: "v"})
+	}
+	si := core.NewStoreInfo(m)
+	si.Clone() // warm-up: the first copy pays for the type information
+	d := time.Duration(1 << 62)
+	for i := 0; i < 3; i++ {
+		t := time.Now()
+		si.Clone()
+		if x := time.Since(t); x < d {
+			d = x
+		}
+	}
+	if d <= 0 {
+		d = time.Microsecond
+	}
+	n := int(float64(probe) * float64(90*time.Millisecond) / float64(d))
+	if n < 4000 {
+		n = 4000
+	}
+	if n > 400000 {
+		n = 400000
+	}
+	return n
+}
+
 func (e *env) racePhase(md *model, rng *rand.Rand) {
 	r := e.r
 	n := 0
@@ -277,6 +370,13 @@ func (e *env) racePhase(md *model, rng *rand.Rand) {
 			if s == nil {
 				return false
 			}
+			if tag == writerTag {
+				// a stale served record would now be flushed to the storage
+				e.runStep(hs, &step{Cmd: "storehb", ID: rX}, nil, md)
+				if e.lost != "" {
+					return false
+				}
+			}
 			ex.Advance(s)
 			if ex.Runs > 40 {
 				r.Count("race_dfs_cut", 1)
@@ -289,16 +389,25 @@ func (e *env) racePhase(md *model, rng *rand.Rand) {
 		}
 	}
 	orders := [][]int{{0, 1}, {1, 0}}
+	nLabels := calibrateLabels()
+	r.Set("store_writer_race_generated_labels", nLabels)
 	variants := []raceFault{{0, 1, 1}, {0, 2, 1}, {1, 1, 1}, {1, 2, 1}}
 	for _, fam := range []struct {
 		tag      string
 		cases    []raceCase
 		ackFinal bool
-	}{{raceTag, heartbeatCases(), true}, {lifeTag, lifecycleCases(), false}, {addrTag, addressCases(r.Thorough()), false}} {
+	}{{raceTag, heartbeatCases(), true}, {lifeTag, lifecycleCases(), false}, {addrTag, addressCases(r.Thorough()), false},
+		{writerTag, writerCases(r.Thorough(), nLabels), true}} {
 		for _, c := range fam.cases {
 			orders := orders
 			if fam.tag == addrTag {
 				orders = [][]int{{0, 1, 2}, {0, 2, 1}} // the lock holder always first
+			}
+			if fam.tag == writerTag {
+				orders = [][]int{{1, 0}} // the lifecycle operation parks at its write, then the writer starts
+				if r.Thorough() {
+					orders = [][]int{{1, 0}, {0, 1}}
+				}
 			}
 			for _, order := range orders {
 				if !run(fam.tag, c, order, nil, fam.ackFinal) {
@@ -307,7 +416,7 @@ func (e *env) racePhase(md *model, rng *rand.Rand) {
 			}
 			// a storage fault inside the race: quick = one variant and one start order per case,
 			// thorough = every variant x both start orders
-			if fam.tag == addrTag {
+			if fam.tag == addrTag || fam.tag == writerTag {
 				continue
 			}
 			if r.Thorough() {
@@ -380,9 +489,23 @@ func (e *env) raceExec(tag string, hs *historyState, md *model, c raceCase, orde
 			defer e.guard.allow(g, false)
 			w := info.Workers[i]
 			for _, op := range w.Ops {
+				if tag == writerTag && i == 0 && order[0] == 1 {
+					// the writer has no storage operation of its own to be parked at: it starts once
+					// the lifecycle operation is parked at its write (exploration order only)
+					for dl := time.Now().Add(10 * time.Second); atomic.LoadInt64(&e.parkedWrites) == 0 && time.Now().Before(dl); {
+						time.Sleep(time.Millisecond)
+					}
+					if atomic.LoadInt64(&e.parkedWrites) == 0 {
+						r.Count("store_writer_started_without_parked_write", 1)
+					}
+				}
 				op.Call = hist.Tick()
+				t := time.Now()
 				e.exec(op)
 				op.Ack = hist.Tick()
+				if os.Getenv("VERIF_DEBUG") != "" && tag == writerTag {
+					fmt.Printf("DEBUGT %s %s took %v\n", w.Name, op.Cmd, time.Since(t))
+				}
 				sv := e.served()
 				mu.Lock()
 				info.Obs = append(info.Obs, raceObs{Tick: hist.Tick(), Worker: w.Name, AfterOp: op.Cmd, Served: sv})
@@ -433,7 +556,7 @@ func (e *env) raceExec(tag string, hs *historyState, md *model, c raceCase, orde
 			ps.Injected = &cp
 		}
 	}
-	if os.Getenv("VERIF_DEBUG") != "" && tag == addrTag {
+	if os.Getenv("VERIF_DEBUG") != "" && (tag == addrTag || tag == writerTag) {
 		fmt.Printf("DEBUG %s %s order=%v blocked=%d trace=%v\n", tag, c.name, order, s.Blocked, s.Trace)
 		for _, w := range info.Workers {
 			for _, op := range w.Ops {
@@ -460,6 +583,12 @@ func (e *env) raceExec(tag string, hs *historyState, md *model, c raceCase, orde
 			r.Count("race_faults_injected", 1)
 		} else {
 			r.Count("race_fault_planned_but_no_such_write", 1)
+		}
+	}
+	if tag == writerTag {
+		wop, lop := info.Workers[0].Ops[0], info.Workers[1].Ops[0]
+		if wop.Call != 0 && lop.Ack != 0 && wop.Call < lop.Ack && (wop.Ack == 0 || wop.Ack > lop.Call) {
+			r.Count("store_writer_overlapped_lifecycle_op", 1)
 		}
 	}
 	r.Distinct("race|" + tag + "|" + c.name + "|" + info.Order + fkey + "|" + s.TraceKey())
@@ -553,4 +682,75 @@ func (e *env) raceExec(tag string, hs *historyState, md *model, c raceCase, orde
 		}
 	}
 	return s
+}
+
+// writerStress: the same pairs free-running (no gates, small store), many rounds, for the race
+// detector and for windows the gates cannot reach; judged after both sides returned.
+func (e *env) writerStress(md *model) {
+	r := e.r
+	if err := e.resetWorld(md); err != nil {
+		r.Inconclusive("%s free-running: %v", writerTag, err)
+		return
+	}
+	hs := &historyState{H: -1900, Backend: e.backend, Script: writerTag + "/free-running"}
+	e.runStep(hs, putX(), nil, md)
+	rounds := r.Pick(60, 600)
+	for i := 0; i < rounds && e.lost == ""; i++ {
+		var l *step
+		switch i % 4 {
+		case 0:
+			l = &step{Cmd: "remove", ID: rX}
+		case 1:
+			l = &step{Cmd: "up", ID: rX}
+		case 2:
+			l = &step{Cmd: "put", Via: "grpc", ID: rX, Addr: fmt.Sprintf("tikv-%c:20160", 'b'+rune(i%5)), Version: "5.0.0", Labels: lbl("zone", fmt.Sprint("z", i))}
+		default:
+			l = &step{Cmd: "weight", ID: rX, LW: float64(i % 3), RW: 1}
+		}
+		ps := &step{Cmd: writerTag, ID: rX, N: len(hs.Steps), Variation: "free-running against " + l.Cmd}
+		hs.Steps = append(hs.Steps, l, ps)
+		prev := e.served()
+		ps.Before = stateName(prev[rX])
+		preRegions := map[uint64]int{}
+		ps.pdRegionCount = map[uint64]int{}
+		for id := range prev {
+			preRegions[id] = md.regionCount(id)
+			ps.pdRegionCount[id] = e.rc.GetStoreRegionCount(id)
+		}
+		e.kv.ResetLog()
+		var wg sync.WaitGroup
+		start := make(chan struct{})
+		wg.Add(1)
+		go func() {
+			defer wg.Done()
+			<-start
+			for k := 0; k < 20; k++ {
+				for _, c := range []string{"attach", "pause", "resume"} {
+					e.exec(&step{Cmd: c, ID: rX})
+				}
+			}
+		}()
+		close(start)
+		e.exec(l)
+		wg.Wait()
+		if !e.healthy() {
+			return
+		}
+		var writes []kvx.Event
+		for _, evn := range e.kv.Log() {
+			if evn.Kind == "Save" || evn.Kind == "Remove" {
+				writes = append(writes, evn)
+			}
+		}
+		cur := e.served()
+		stored, orphanW, serr := e.stored()
+		if serr != nil {
+			r.Violation("stored-record-unreadable", serr.Error(), e.witness(hs, prev, cur, nil))
+			return
+		}
+		e.judge(hs, ps, nil, md, prev, cur, stored, orphanW, preRegions, writes)
+		r.Count("store_writer_free_running_rounds", 1)
+	}
+	r.Eval(1)
+	r.Distinct("race|" + writerTag + "|free-running")
 }
